@@ -81,7 +81,7 @@ def check(case):
                 if not (("*" in (cg, str(o).split("\t")[5])) and oracle.link_canon(str(o).split("\t")[1:6])[:4] == oracle.link_canon(text.split("\t")[1:6])[:4]):
                     fail("different-link-refused", "%s then %s" % (text, other))
         # paths in both directions record the traversal direction
-        if a != b:
+        if True:
             for pname, segsp, ov, direction in (("pf", "%s%s,%s%s" % (a, oa, b, ob), cg, "+"), ("pr", "%s%s,%s%s" % (b, oracle.inv(ob), a, oracle.inv(oa)), oracle.cigar_complement(cg), "-")):
                 for first in (True, False):
                     lines = segs + ([text] if first else []) + ["P\t%s\t%s\t%s" % (pname, segsp, ov)] + ([] if first else [text])
@@ -90,7 +90,7 @@ def check(case):
                     lk = p.links
                     if len(lk) != 1 or lk[0].line is not g3._gfa1_links[0] or len(g3._gfa1_links) != 1:
                         fail("path-does-not-resolve-to-stored-link:%s:%s" % (direction, "link-first" if first else "path-first"), str(lines))
-                    elif lk[0].orient != direction and not oracle.link_canon(text.split("\t")[1:6]) == oracle.link_canon([b, oracle.inv(ob), a, oracle.inv(oa), oracle.cigar_complement(cg)]) * 0:
+                    elif lk[0].orient != direction:
                         # self-complementary links (same ends, palindromic cigar) may report either direction
                         selfc = [a, oa, b, ob, cg] == [b, oracle.inv(ob), a, oracle.inv(oa), oracle.cigar_complement(cg)]
                         if not selfc:
